@@ -76,6 +76,21 @@ theorem shared_isolation (methods : List (List Ev)) (hwl : ∀ es ∈ methods, w
   have hri := (inv.rmode i ti hi).mp hrd
   rw [inv.excl (by simp [hwr])] at hri
   cases hri
+/-- (7) No check-then-act windows, regenerated from the source on every run: every execution path of every
+    public method is ONE critical section — it never re-acquires the lock after releasing it — so a
+    decision taken under the lock (is the key present? is the store finalized?) is acted upon under the
+    same acquisition. -/
+theorem atomic_table : Car.Facts.lockTable.all (fun m => singleSection m.2) = true := by decide
+
+/-- (8) What (1) and (7) say together about the shape of a method path: it is empty, or one exclusive
+    block `lock; accesses…; unlock`, or one shared block `rlock; reads…; runlock` — nothing before,
+    between or after. With (4)–(6) each non-empty path therefore runs as if alone (exclusive) or
+    against a frozen state (shared): the linearization point is its single lock acquisition. -/
+theorem method_is_one_block (es : List Ev) (h1 : wellLocked es = true) (h2 : singleSection es = true) :
+    es = [] ∨ (∃ body, es = .lock :: body ++ [.unlock] ∧ body.all Ev.isAccess = true) ∨
+    (∃ body, es = .rlock :: body ++ [.runlock] ∧ body.all Ev.isRead = true) :=
+  single_section_shape es h1 h2
+
 /-- Non-vacuity: the extracted methods themselves satisfy the premise of (2)–(4). -/
 example : ∀ es ∈ Car.Facts.lockTable.map (·.2), wellLocked es = true := by
   intro es hes
